@@ -490,7 +490,13 @@ func (self *Runtime) reattachToPipestance(psid string, pipestancePath string,
 		}
 		// Check if _invocation has changed.
 		if !bytes.Equal(src, data) {
-			return nil, &PipestanceInvocationError{psid, invocationPath}
+			// InvokePipeline records the invocation source with
+			// environment variables expanded.
+			expanded := []byte(os.ExpandEnv(string(src)))
+			if !bytes.Equal(expanded, data) {
+				return nil, &PipestanceInvocationError{psid, invocationPath}
+			}
+			src = expanded
 		}
 	}
 	// Instantiate the pipestance.
